@@ -199,10 +199,18 @@ fn alt_lit(k: &OperandKind, pos: usize, alt: usize) -> &'static str {
 }
 
 fn signature_alt(interp: &Interpreter, expr: &str, ks: &[&OperandKind], alt: usize) -> Sig {
-    let params: Vec<String> = ks.iter().enumerate().map(|(i, k)| format!("{}: {}", NAMES[i], k.ty)).collect();
+    signature_masked(interp, expr, ks, alt, 0)
+}
+
+/// operands whose bit is set in `constant` are bound to their literal inside the function
+/// (a constant for the checker and the folder) instead of being passed at run time
+fn signature_masked(interp: &Interpreter, expr: &str, ks: &[&OperandKind], alt: usize, constant: usize) -> Sig {
+    let is_const = |i: usize| constant & (1 << i) != 0;
+    let params: Vec<String> = ks.iter().enumerate().filter(|(i, _)| !is_const(*i)).map(|(i, k)| format!("{}: {}", NAMES[i], k.ty)).collect();
+    let consts: String = ks.iter().enumerate().filter(|(i, _)| is_const(*i)).map(|(i, k)| format!("{} := {}; ", NAMES[i], alt_lit(k, i, alt))).collect();
     let cells: Vec<String> = ks.iter().enumerate().filter(|(_, k)| k.is_cell).map(|(i, _)| format!("*{}", NAMES[i])).collect();
     let ret = if cells.is_empty() { "(r, 0)".to_string() } else { format!("(r, {})", cells.join(", ")) };
-    let text = format!("f := ({}) -> any {{ r := {expr}; return {ret} }}", params.join(", "));
+    let text = format!("f := ({}) -> any {{ {consts}r := {expr}; return {ret} }}", params.join(", "));
     verif::set_fuel(Some(core::QUICK_FUEL), Some(core::DEPTH));
     let s = (|| {
         let code = match guard(|| Code::parse(interp, &text)) {
@@ -219,6 +227,9 @@ fn signature_alt(interp: &Interpreter, expr: &str, ks: &[&OperandKind], alt: usi
         };
         let mut args = Vec::new();
         for (i, k) in ks.iter().enumerate() {
+            if is_const(i) {
+                continue;
+            }
             match guard(|| Code::parse(interp, alt_lit(k, i, alt)).unwrap().exec().unwrap()) {
                 Ok(v) => args.push(v),
                 Err(_) => return Sig::Other("operand literal does not evaluate".into()),
@@ -262,6 +273,25 @@ fn check(acc: &mut Acc, interp: &Interpreter, family: &str, label: &str, toks: &
     }
     if acc.sigs.len() < 4096 {
         acc.sigs.insert(s_flat.clone());
+    }
+    // the grouping must not depend on which operands are constants: the folder regroups nothing.
+    // (A constant operation that fails is reported when the program is parsed; same kind required.)
+    if matches!(s_flat, Sig::Value(_) | Sig::Error(_)) && ks.iter().all(|k| ["int", "bool", "float", "string", "array"].contains(&k.name)) {
+        for constant in 1..(1usize << ks.len()) {
+            let s_mask = signature_masked(interp, &flat_text, ks, 0, constant);
+            acc.programs += 1;
+            let same = match (&s_mask, &s_flat) {
+                (Sig::Rejected(msg), Sig::Error(kind)) => msg.starts_with(kind.as_str()),
+                (a, b) => a == b,
+            };
+            if !same {
+                let kn: Vec<&str> = ks.iter().map(|k| k.name).collect();
+                acc.violations.push(Violation {
+                    sig: format!("C14|grouping-depends-on-constant-operands|{family}|{label}|constants={constant:b}"),
+                    detail: json!({"kind": "precedence", "expression": flat_text, "operand_kinds": kn, "constant_operand_mask": format!("{constant:b}"), "all_run_time_outcome": format!("{s_flat:?}"), "with_constants_outcome": format!("{s_mask:?}")}),
+                });
+            }
+        }
     }
     if s_flat != s_table {
         let kn: Vec<&str> = ks.iter().map(|k| k.name).collect();
